@@ -134,7 +134,19 @@ def check_invs(R, c, invs, env, ghosts, when, assume=False):
         if assume:
             R.assume(z3.ForAll(gconsts, cl) if gconsts else cl)
         else:
-            R.prove(cl, 'inv-%s:%s:%s' % (when, c.qualname, lbl), 'inv')
+            # one obligation per conjunct (each is assumed once proved, so later conjuncts see the earlier ones)
+            parts = [cl]
+            if not gconsts and z3.is_and(cl):
+                parts = []
+                todo = [cl]
+                while todo:
+                    x = todo.pop(0)
+                    if z3.is_and(x):
+                        todo = list(x.children()) + todo
+                    else:
+                        parts.append(x)
+            for k, part in enumerate(parts):
+                R.prove(part, 'inv-%s:%s:%s%s' % (when, c.qualname, lbl, '#%d' % k if len(parts) > 1 else ''), 'inv')
 
 
 # --------------------------------------------------------------------------- while
@@ -194,7 +206,14 @@ def exec_while(R, node, env):
 
 # --------------------------------------------------------------------------- for
 def exec_for(R, node, env):
-    it = R.eval(node.iter, env)
+    if isinstance(node.iter, ast.Call) and isinstance(node.iter.func, ast.Name) and node.iter.func.id == 'reversed' \
+            and len(node.iter.args) == 1 and not node.iter.keywords and not env.has('reversed'):
+        # `for x in reversed(xs)`: iterate by index from the end (no need for the sequence-valued spec rev_<kind>)
+        inner = R.eval(node.iter.args[0], env)
+        items = R.concrete_items(inner)
+        it = TupleV(list(reversed(items))) if items is not None else RevV(inner)
+    else:
+        it = R.eval(node.iter, env)
     if isinstance(it, IterV):
         it = B.consume_comprehension(R, it, 'tuple')
     items = R.concrete_items(it)
@@ -228,7 +247,17 @@ def exec_for(R, node, env):
 def elem_at(R, it, i):
     """Element number i (z3 Int) of an indexable iterable, and its length."""
     if B.is_seq(it):
-        return R.wrap(it.e[i], it.kind[1]), z3.Length(it.e)
+        e = it.e
+        if z3.is_app(e) and e.decl().kind() == z3.Z3_OP_SEQ_EXTRACT:
+            # element i of base[off : off + ln] is base[off + i] (for 0 <= i < length of the slice, which is
+            # what a loop reads): saves the solver the reasoning about nth over extract
+            base, off, ln = e.arg(0), e.arg(1), e.arg(2)
+            L = z3.Length(base)
+            # length of seq.extract stated arithmetically (SMT-LIB: empty unless 0 <= off <= |base| and ln > 0,
+            # else min(ln, |base| - off) elements)
+            n = z3.If(z3.Or(off < 0, off > L, ln <= 0), z3.IntVal(0), z3.If(ln < L - off, ln, L - off))
+            return R.wrap(base[off + i], it.kind[1]), n
+        return R.wrap(e[i], it.kind[1]), z3.Length(e)
     if isinstance(it, (TupleV, ListV)):
         sq = R.as_seq(it)
         return R.wrap(sq[0][i], sq[1]), z3.IntVal(len(it.items))
